@@ -12,7 +12,7 @@ open Genshi.Tmpl.Scan Genshi.San
 
 /-! ### prefixes, occurrences -/
 
-theorem dropPrefix?_append (p s : Str) : dropPrefix? p (p ++ s) = some s := by
+theorem dropPrefix?_app (p s : Str) : dropPrefix? p (p ++ s) = some s := by
   induction p with
   | nil => simp [dropPrefix?]
   | cons a p ih => simp [dropPrefix?, ih]
@@ -26,7 +26,7 @@ theorem noOcc_nil (p : Str) : NoOcc p [] := by
   cases p with
   | nil => cases rest <;> simp [findSub, dropPrefix?]
   | cons c p' =>
-    have h := dropPrefix?_append (c :: p') rest
+    have h := dropPrefix?_app (c :: p') rest
     simp only [List.nil_append, List.cons_append] at h ⊢
     simp [findSub, h]
 
@@ -73,7 +73,7 @@ theorem scanDGo_dir (d : Delims) {p : Char} {acc X : Str} {m : DirM} (hp : p ≠
   obtain ⟨c, sd', hsd'⟩ := List.exists_cons_of_ne_nil hsd
   have e : d.sd ++ X = c :: (sd' ++ X) := by rw [hsd']; rfl
   have hdp : dropPrefix? d.sd (c :: (sd' ++ X)) = some X := by
-    rw [← e]; exact dropPrefix?_append d.sd X
+    rw [← e]; exact dropPrefix?_app d.sd X
   have hk : scanDGo d (d.sd.length + m.inner.length + d.ed.length - 1) c [] (sd' ++ X) =
       scanDGo d 0 (lastCh p (d.sd ++ m.inner ++ d.ed)) [] m.rest := by
     have e2 : sd' ++ X = (sd' ++ m.inner ++ d.ed) ++ m.rest := by rw [hX]; simp
@@ -94,7 +94,7 @@ theorem scanDGo_comment (d : Delims) {p : Char} {acc X body rest : Str} (hp : p 
   obtain ⟨c, sc', hsc'⟩ := List.exists_cons_of_ne_nil hsc
   have e : d.sc ++ X = c :: (sc' ++ X) := by rw [hsc']; rfl
   have hdp : dropPrefix? d.sc (c :: (sc' ++ X)) = some X := by
-    rw [← e]; exact dropPrefix?_append d.sc X
+    rw [← e]; exact dropPrefix?_app d.sc X
   rw [e] at hnd
   have hk : scanDGo d (d.sc.length + body.length + d.ec.length - 1) c [] (sc' ++ X) =
       scanDGo d 0 (lastCh p (d.sc ++ body ++ d.ec)) [] rest := by
